@@ -8,5 +8,7 @@ CONSTANTS
   BugFirstWins = FALSE
   AllowNumericDocKeys = TRUE
   BugOkWithoutAddr = FALSE
+  BugU64ViaI64 = FALSE
+  BugCompKeepsRule = FALSE
 INVARIANTS Unambiguous
 CHECK_DEADLOCK FALSE
